@@ -317,11 +317,38 @@ class Malformed(MilStream):
         return cs
 
 
+class Concurrent(Stream):
+    """the same library calls made for 8 subscribers at once must give what they give one at a time (the functions are
+    specified per call: TS 35.206 has no hidden state)"""
+    name = "concurrent"
+    sub = "conc"
+    model_check = None
+    spec_check = None
+    requires = []
+
+    def generate(self, rng, tier):
+        return [{"family": "milenage", "goroutines": 8, "iters": 1500 if tier == "quick" else 20000}]
+
+    def classify(self, c, o):
+        return "same" if o.get("different") == 0 else "different"
+
+    def key(self, c, o):
+        return "milenage-conc"
+
+    def coq_case(self, c, o):
+        return ""
+
+    def direct_check(self, c, o):
+        if o.get("different", 1) != 0 or "harness_error" in o or "panic" in o:
+            return "concurrent use for different subscribers changes the results: %s" % (o.get("first") or o)
+        return None
+
+
 class C15(Check):
     pid = "C15"
     prop_files = ["Properties/C15.v"]
     extra_targets = ["Model/MilenageCases.vo"]
-    streams = [Functions(), Autn(), Auts(), Malformed()]
+    streams = [Functions(), Autn(), Auts(), Malformed(), Concurrent()]
     trusted = ["Coq 8.16.1 kernel incl. vm_compute (no native_compute)", "no axioms (Print Assumptions: closed under the global context)",
                "hand-written model Model/Milenage.v of free5gclib/milenage tied by the correspondence streams functions, autn, auts, malformed",
                "Crypto/AES.v (FIPS-197, vector C.1 as Example) stands for Go crypto/aes in the executed model; theorems hold for any block cipher E with 16-octet output",
